@@ -84,10 +84,13 @@ def worker(corpus_file, out_file):
 
 
 def classify(spec, problems, extents=None):
-    k = kf.kf1_take_in_sum(spec, problems) or kf.classify_name_error(spec, problems) or \
-        mcommon.kf6(spec, problems)
+    k = kf.classify_plain(spec, problems) or mcommon.kf6(spec, problems)
     if k:
         return k
+    if any(t in spec.tags for t in ("S1", "S2", "S3", "S4", "S5", "S6", "S8")):
+        k = c04.classify(spec, problems, extents)
+        if k:
+            return k
     ok = True
     for p in problems:
         if p.get("kind") == "unbound-read":
